@@ -126,14 +126,16 @@ func (h *History) endState(ec EndCfg) []disc {
 				switch {
 				case !known:
 					add("dead-node-present", "unexplained-phantom", fmt.Sprintf("the view of %s lists %s (%s), which never ran", xa, id, e.addr))
+				case mh.relearned && mh.relearnedDead:
+					add("dead-node-present", "resurrected", fmt.Sprintf("%s lists the stopped node %s (%s, stopped at t=%d) again after having removed it at t=%d", xa, id, e.addr, d.at, mh.removedAt))
 				case T <= 0 && d.left:
 					add("dead-node-present", "left-fd-off", fmt.Sprintf("%s still lists %s (%s), which left the cluster gracefully at t=%d (failure detection is off, so only an announced leave could remove it; the leave is not announced: Leaving is set on the actor's own NodeState, not on the view's copy)", xa, id, e.addr, d.at))
 				case T <= 0:
-					add("dead-node-present", "crashed-fd-off", fmt.Sprintf("%s still lists the crashed node %s (%s); failure detection is off", xa, id, e.addr))
+					// a crash with failure detection off cannot be detected by design (FailureDetectionTimeout <= 0 = "rely on explicit Leave"): not a hit
+				case s.nodes[e.addr] != nil && s.nodes[e.addr].cfg.ID != id:
+					add("dead-node-present", "predecessor-id-at-live-address", fmt.Sprintf("%s still lists %s (%s, stopped at t=%d) although the process at that address now runs under the NodeID %s: the gossip of the successor refreshes LastSeen of whichever member MemberByAddress finds first, and a node never times out a member carrying its own address", xa, id, e.addr, d.at, s.nodes[e.addr].cfg.ID))
 				case s.now < d.at+T+conf+(2*ec.fdEvery+2)*ec.D:
 					// not yet due
-				case mh.relearned && mh.relearnedDead:
-					add("dead-node-present", "resurrected", fmt.Sprintf("%s lists the stopped node %s (%s, stopped at t=%d) again after having removed it at t=%d", xa, id, e.addr, d.at, mh.removedAt))
 				case x.born > d.at:
 					add("dead-node-present", "learned-after-death", fmt.Sprintf("%s (started at t=%d) lists %s (%s), stopped at t=%d", xa, x.born, id, e.addr, d.at))
 				default:
@@ -150,6 +152,10 @@ func (h *History) endState(ec EndCfg) []disc {
 					cause = "stale-incarnation-equal-vectors"
 				}
 				add("old-incarnation-shadows", cause, fmt.Sprintf("%s holds %s at incarnation (%d,%d) but the running node is at (%d,%d)", xa, id, e.gen, e.lc, own.Generation, own.LogicalClock))
+			case (e.gen > own.Generation || e.lc > own.LogicalClock) && e.ts != own.Timestamp && e.ts < y.born:
+				// only a node itself raises its generation: an entry above the running process's own one, stamped before that
+				// process started, is the record of a previous process
+				add("old-incarnation-shadows", "predecessor-entry-with-higher-incarnation-number", fmt.Sprintf("%s holds %s at (%d,%d) (timestamp %d), an entry of a previous process, above the running node's own (%d,%d) (started at t=%d): the restarted node derived its generation from a seed that knew only an older incarnation, or none, so the dead process's entry wins every merge", xa, id, e.gen, e.lc, e.ts, own.Generation, own.LogicalClock, y.born))
 			case e.gen > own.Generation || e.lc > own.LogicalClock:
 				add("old-incarnation-shadows", "unexplained-future-incarnation", fmt.Sprintf("%s holds %s at (%d,%d), newer than the running node's own (%d,%d)", xa, id, e.gen, e.lc, own.Generation, own.LogicalClock))
 			case y != x && e.ts != own.Timestamp:
@@ -209,7 +215,7 @@ func (h *History) endState(ec EndCfg) []disc {
 		}
 	}
 	lwhy := why
-	if allSameUp {
+	if allSameUp && len(ds) == 0 {
 		lwhy = "unexplained-same-up-sets"
 	}
 	for _, a := range addrs[1:] {
